@@ -716,7 +716,8 @@ public:
   }
 
   void report_subtotal(const char * spec_fmt = NULL,
-                       const optional<date_interval_t>& interval = none);
+                       const optional<date_interval_t>& interval = none,
+                       const optional<string>& literal_payee = none);
 
   virtual void flush() {
     if (values.size() > 0)
